@@ -177,77 +177,7 @@ def run(repo: Repo, rep: Report, tier: str) -> None:
     _global_state(repo, live, rep, res)
 
     # ---------------------------------------------------------------- R9.4 / R9.5 diff completeness
-    sd = repo.func("generator.client_generator:ClientGenerator._show_diffs")
-    from sa.flatten import flatten as _fl94
-
-    sd = _fl94(sd)  # the per-file comparison may live in a helper of the class
-    cfg = CFG(sd.node)
-    SL = Locals(sd.node)
-    sparams = [p for p in SL.params if p != "self"]
-    if len(sparams) < 2:
-        raise AnalysisError("anchor vanished: _show_diffs(old_dir, new_dir) signature")
-    p_old, p_new = sparams[0], sparams[1]
-
-    def _exists_call(x: ast.AST) -> bool:
-        return isinstance(x, ast.Call) and ((isinstance(x.func, ast.Attribute) and x.func.attr in ("exists", "is_file")) or (dotted(x.func) or "") in (
-            "os.path.exists", "os.path.isfile"))
-
-    tests = [n for n in cfg.nodes if n.kind == "test" and any(_exists_call(x) for x in ast.walk(n.ast))]
-    rep.require(len(tests) >= 1, "R9.4: _show_diffs no longer tests whether the existing counterpart of a generated file exists (anchor)")
-    flagvars = {norm(r.value) for r in own_nodes(sd.node) if isinstance(r, ast.Return) and r.value is not None}
-    hdr = {n.id for n in cfg.nodes if n.kind == "iter"}
-
-    def _sets_flag_after(m: int) -> bool:
-        for nid in {m} | cfg.reachable_from_without(m, hdr):
-            a = cfg.nodes[nid].ast
-            if isinstance(a, ast.Assign) and norm(a.targets[0]) in flagvars and isinstance(a.value, ast.Constant) and a.value.value is True:
-                return True
-            if isinstance(a, ast.Return) and isinstance(a.value, ast.Constant) and a.value.value is True:
-                return True
-        return False
-
-    for t in tests:
-        tv = truthiness(t.ast)
-        exists_sense = True if tv is None else tv[1]  # `x.exists()` true-branch = exists; `not x.exists()` true-branch = missing
-        missing_lab = "false" if exists_sense else "true"
-        missing_succ = [m for m, lab in cfg.succ[t.id] if lab == missing_lab]
-        sets_flag = any(_sets_flag_after(m) for m in missing_succ)
-        sub = f"{sd.module.relpath}:_show_diffs missing counterpart"
-        if sets_flag:
-            rep.ok("R9.4", sub, "a newly generated file without an existing counterpart sets the difference flag", sd.loc(t.ast))
-        else:
-            rep.violation("R9.4", sub, f"{sd.fq}|one-sided-ignored",
-                          "a file that would be generated now but is missing from the existing output is skipped: the run reports 'no differences'", sd.loc(t.ast))
-    # every content difference sets the flag: the test on the computed diff (or on the inequality of the two texts)
-    diff_vars = {name for name, ds in SL.defs.items() for k, v, _ in ds if v is not None and any(
-        isinstance(c, ast.Call) and (dotted(c.func) or "").split(".")[-1] in ("unified_diff", "ndiff", "context_diff") for c in ast.walk(v))}
-    diffs = []
-    for n in cfg.nodes:
-        if n.kind != "test":
-            continue
-        tv = truthiness(n.ast)
-        if tv is not None and isinstance(tv[0], ast.Name) and SL.root(tv[0].id) in diff_vars:
-            diffs.append((n, "true" if tv[1] else "false"))
-        elif isinstance(n.ast, ast.Compare) and len(n.ast.ops) == 1 and isinstance(n.ast.ops[0], (ast.NotEq, ast.Eq)) and not any(_exists_call(x) for x in ast.walk(n.ast)) \
-                and any(isinstance(c, ast.Call) and isinstance(c.func, ast.Attribute) and c.func.attr in ("read_text", "read_bytes", "splitlines") for c in ast.walk(SL.inline(n.ast))):
-            diffs.append((n, "true" if isinstance(n.ast.ops[0], ast.NotEq) else "false"))
-    okd = any(_sets_flag_after(m) for t, lab_d in diffs for m, lab in cfg.succ[t.id] if lab == lab_d)
-    if not diffs:
-        raise AnalysisError("R9.4: cannot find where _show_diffs tests the computed difference (anchor)")
-    if okd:
-        rep.ok("R9.4", f"{sd.module.relpath}:_show_diffs content difference", "a non-empty unified diff sets the flag that is returned", sd.loc())
-    else:
-        rep.violation("R9.4", f"{sd.module.relpath}:_show_diffs content difference", f"{sd.fq}|diff-flag", "a content difference does not set the returned flag", sd.loc())
-    # what is compared: all generated python files, recursively
-    globs = [c for c in calls_in(sd.node) if isinstance(c.func, ast.Attribute) and c.func.attr in ("rglob", "glob")] + [
-        c for c in calls_in(sd.node) if (dotted(c.func) or "") in ("os.walk",)]
-    if globs and all(isinstance(c.func, ast.Attribute) and c.func.attr == "rglob" and c.args and const_str(c.args[0]) == "*.py" and p_new in names_in(SL.inline(c.func.value, stop=tuple(SL.params)))
-                     for c in globs):
-        rep.ok("R9.4", f"{sd.module.relpath}:_show_diffs coverage", "walks every *.py of the newly generated tree recursively", sd.loc(globs[0]))
-    else:
-        rep.violation("R9.4", f"{sd.module.relpath}:_show_diffs coverage", f"{sd.fq}|coverage",
-                      f"the comparison no longer walks all generated *.py files recursively ({[norm(g)[:50] for g in globs]})", sd.loc())
-
+    rule_show_diffs_model(repo, rep, "R9.4")
     rule_show_diffs_compares_all(repo, rep, "R9.4")
 
     # ---------------------------------------------------------------- R9.5 / R9.6 / R9.7 on generate()
@@ -1165,50 +1095,216 @@ def rule_no_memoised_outside_reads(repo: Repo, rep, rule: str = "R9.13", live: O
         rep.ok(rule, "functions on the generation path that are memoised per process", f"{n_memo} memoised function(s) in {n_mod} modules: none reads files, directories, the environment or URLs", "src/pyopenapi_gen:1")
 
 
-# ------------------------------------------------------------------------------------------------ R9.4 (shared with C10 / C12): no generated file is left out of the comparison
-def rule_show_diffs_compares_all(repo: Repo, rep, rule: str = "R9.4") -> None:
-    """Every *.py of the newly generated tree is compared: the loop of _show_diffs runs over the glob result itself (not over a filtered
-    list) and has no skip."""
+# ------------------------------------------------------------------------------------------------ R9.4 a model of _show_diffs that does not depend on its spelling
+def _show_diffs_model(repo: Repo):
+    """What `_show_diffs(old_dir, new_dir)` does, read by role: which expressions are the file sets of the new / the old tree (a glob over the
+    parameter - directly, through `sorted` / `set` / a comprehension, or through a helper defined inside the function that globs its argument),
+    the loop over the new tree's files, the test that decides 'the old tree has no such file' (`.exists()` on a path below the old directory, or
+    membership in the old tree's file set), the returned flag."""
     sd = repo.func("generator.client_generator:ClientGenerator._show_diffs")
     from sa.flatten import flatten as _fl94b
 
     sd = _fl94b(sd)
     SL = Locals(sd.node)
+    sparams = [p for p in SL.params if p != "self"]
+    if len(sparams) < 2:
+        raise AnalysisError("anchor vanished: _show_diffs(old_dir, new_dir) signature")
+    p_old, p_new = sparams[0], sparams[1]
+    nested = {d.name: d for d in ast.walk(sd.node) if isinstance(d, (ast.FunctionDef, ast.AsyncFunctionDef)) and d is not sd.node}
+
+    def globs_in(e: ast.AST):
+        return [c for c in ast.walk(e) if isinstance(c, ast.Call) and ((isinstance(c.func, ast.Attribute) and c.func.attr in ("rglob", "glob", "iterdir")) or (dotted(c.func) or "") in ("os.walk", "os.listdir", "os.scandir"))]
+
+    def tree_of(e: ast.AST, depth: int = 0) -> Set[str]:
+        """{'new'} / {'old'} / both / empty: which tree's files the expression enumerates"""
+        out: Set[str] = set()
+        if depth > 6:
+            return out
+        for c in ast.walk(e):
+            if isinstance(c, ast.Call):
+                if c in globs_in(c):
+                    names = set(names_in(SL.inline(c.func.value, stop=tuple(SL.params)))) if isinstance(c.func, ast.Attribute) else set()
+                    names |= {x.id for a in c.args for x in ast.walk(a) if isinstance(x, ast.Name)}
+                    if p_new in names:
+                        out.add("new")
+                    if p_old in names:
+                        out.add("old")
+                elif isinstance(c.func, ast.Name) and c.func.id in nested and globs_in(nested[c.func.id]):
+                    an = {x.id for a in c.args for x in ast.walk(a) if isinstance(x, ast.Name)}
+                    an |= {y for x in list(an) for y in names_in(SL.inline(ast.Name(id=x, ctx=ast.Load()), stop=tuple(SL.params)))}
+                    if p_new in an:
+                        out.add("new")
+                    if p_old in an:
+                        out.add("old")
+            if isinstance(c, ast.Name) and c.id in SL.defs and c.id not in SL.params:
+                for _, v, dn in SL.defs.get(c.id, []):
+                    if v is None or v is e:
+                        continue
+                    # `a, b = f(x), f(y)`: the element that belongs to this name
+                    if isinstance(dn, ast.Assign) and len(dn.targets) == 1 and isinstance(dn.targets[0], ast.Tuple) and isinstance(dn.value, ast.Tuple) \
+                            and len(dn.targets[0].elts) == len(dn.value.elts):
+                        for t_, v_ in zip(dn.targets[0].elts, dn.value.elts):
+                            if isinstance(t_, ast.Name) and t_.id == c.id:
+                                out |= tree_of(v_, depth + 1)
+                        continue
+                    out |= tree_of(v, depth + 1)
+        return out
+
+    return sd, SL, p_old, p_new, nested, globs_in, tree_of
+
+
+def rule_show_diffs_model(repo: Repo, rep, rule: str = "R9.4") -> None:
+    """(a) a file that would be generated now but is missing from the existing tree is a difference; (b) a content difference sets the returned
+    flag; (c) the walk covers every generated file recursively; (d) a file that exists only in the existing tree (stale) is a difference."""
+    sd, SL, p_old, p_new, nested, globs_in, tree_of = _show_diffs_model(repo)
+    cfg = CFG(sd.node)
+    flagvars = {norm(r.value) for r in own_nodes(sd.node) if isinstance(r, ast.Return) and r.value is not None}
+    hdr = {n.id for n in cfg.nodes if n.kind == "iter"}
 
     def _exists_call(x: ast.AST) -> bool:
         return isinstance(x, ast.Call) and ((isinstance(x.func, ast.Attribute) and x.func.attr in ("exists", "is_file")) or (dotted(x.func) or "") in (
             "os.path.exists", "os.path.isfile"))
 
-    # ... and every one of them is compared: the loop runs over the glob result itself (not over a filtered list) and has no skip
-    cmp_loops = [lp for lp in own_nodes(sd.node) if isinstance(lp, ast.For) and any(_exists_call(x) for x in ast.walk(lp))]
+    def _sets_flag_after(m: int) -> bool:
+        for nid in {m} | cfg.reachable_from_without(m, hdr):
+            a = cfg.nodes[nid].ast
+            if isinstance(a, ast.Assign) and norm(a.targets[0]) in flagvars and isinstance(a.value, ast.Constant) and a.value.value is True:
+                return True
+            if isinstance(a, ast.Return) and isinstance(a.value, ast.Constant) and a.value.value is True:
+                return True
+        return False
+
+    new_loops = [lp for lp in own_nodes(sd.node) if isinstance(lp, ast.For) and "new" in tree_of(lp.iter) and "old" not in tree_of(lp.iter)]
+    if not new_loops:
+        raise AnalysisError(f"{rule}: the loop of _show_diffs over the files of the newly generated tree was not found (anchor)")
+    lp = new_loops[0]
+    inside = {id(x) for x in ast.walk(lp)}
+    # (a) presence test inside the loop
+    tests = []
+    for n in cfg.nodes:
+        if n.kind != "test" or n.ast is None or id(n.ast) not in inside:
+            continue
+        t = n.ast
+        if any(_exists_call(x) for x in ast.walk(t)):
+            tv = truthiness(t)
+            exists_sense = True if tv is None else tv[1]
+            tests.append((n, "false" if exists_sense else "true"))
+        else:
+            u, pol = t, True
+            while isinstance(u, ast.UnaryOp) and isinstance(u.op, ast.Not):
+                u, pol = u.operand, not pol
+            if isinstance(u, ast.Compare) and len(u.ops) == 1 and isinstance(u.ops[0], (ast.In, ast.NotIn)) and "old" in tree_of(u.comparators[0]) and "new" not in tree_of(u.comparators[0]):
+                present_when_true = isinstance(u.ops[0], ast.In) == pol
+                tests.append((n, "false" if present_when_true else "true"))
+    if not tests:
+        raise AnalysisError(f"{rule}: _show_diffs no longer tests whether the existing counterpart of a generated file exists (anchor)")
+    for n, missing_lab in tests[:1]:
+        missing_succ = [m for m, lab in cfg.succ[n.id] if lab == missing_lab]
+        sub = f"{sd.module.relpath}:_show_diffs missing counterpart"
+        if any(_sets_flag_after(m) for m in missing_succ):
+            rep.ok(rule, sub, "a newly generated file without an existing counterpart sets the difference flag", sd.loc(n.ast))
+        else:
+            rep.violation(rule, sub, f"{sd.fq}|one-sided-ignored",
+                          "a file that would be generated now but is missing from the existing output is skipped: the run reports 'no differences'", sd.loc(n.ast))
+    # (b) a content difference sets the flag
+    diff_vars = {name for name, ds in SL.defs.items() for k, v, _ in ds if v is not None and any(
+        isinstance(c, ast.Call) and (dotted(c.func) or "").split(".")[-1] in ("unified_diff", "ndiff", "context_diff") for c in ast.walk(v))}
+    diffs = []
+    for n in cfg.nodes:
+        if n.kind != "test" or n.ast is None:
+            continue
+        tv = truthiness(n.ast)
+        if tv is not None and isinstance(tv[0], ast.Name) and SL.root(tv[0].id) in diff_vars:
+            diffs.append((n, "true" if tv[1] else "false"))
+        elif isinstance(n.ast, ast.Compare) and len(n.ast.ops) == 1 and isinstance(n.ast.ops[0], (ast.NotEq, ast.Eq)) and not any(_exists_call(x) for x in ast.walk(n.ast)) \
+                and any(isinstance(c, ast.Call) and isinstance(c.func, ast.Attribute) and c.func.attr in ("read_text", "read_bytes", "splitlines") for c in ast.walk(SL.inline(n.ast))):
+            diffs.append((n, "true" if isinstance(n.ast.ops[0], ast.NotEq) else "false"))
+    if not diffs:
+        raise AnalysisError(f"{rule}: cannot find where _show_diffs tests the computed difference (anchor)")
+    if any(_sets_flag_after(m) for t, lab_d in diffs for m, lab in cfg.succ[t.id] if lab == lab_d):
+        rep.ok(rule, f"{sd.module.relpath}:_show_diffs content difference", "a content difference sets the flag that is returned", sd.loc())
+    else:
+        rep.violation(rule, f"{sd.module.relpath}:_show_diffs content difference", f"{sd.fq}|diff-flag", "a content difference does not set the returned flag", sd.loc())
+    # (c) coverage: the new tree is walked recursively, for every file or at least every *.py
+    walk_calls = [c for c in globs_in(sd.node) if True]
+    new_walks = []
+    for c in walk_calls:
+        names = set(names_in(SL.inline(c.func.value, stop=tuple(SL.params)))) if isinstance(c.func, ast.Attribute) else set()
+        in_nested = next((d for d in nested.values() if any(x is c for x in ast.walk(d))), None)
+        if p_new in names or (in_nested is not None and any(isinstance(k, ast.Call) and isinstance(k.func, ast.Name) and k.func.id == in_nested.name and p_new in {
+                y.id for a in k.args for y in ast.walk(a) if isinstance(y, ast.Name)} for k in ast.walk(sd.node))):
+            new_walks.append(c)
+    good = bool(new_walks) and all(isinstance(c.func, ast.Attribute) and c.func.attr == "rglob" and c.args and const_str(c.args[0]) in ("*.py", "*", "**/*") for c in new_walks)
+    if good:
+        rep.ok(rule, f"{sd.module.relpath}:_show_diffs coverage", f"walks the newly generated tree recursively (`{norm(new_walks[0])[:40]}`)", sd.loc(new_walks[0]))
+    else:
+        rep.violation(rule, f"{sd.module.relpath}:_show_diffs coverage", f"{sd.fq}|coverage",
+                      f"the comparison no longer walks all generated files recursively ({[norm(g)[:50] for g in new_walks or walk_calls]})", sd.loc())
+    # (d) "when the existing output differs from what would be generated now, the non-force run fails": a file that only the existing tree has
+    stale = False
+    for lp2 in [x for x in own_nodes(sd.node) if isinstance(x, ast.For)]:
+        tr = tree_of(lp2.iter)
+        if "old" in tr:
+            for n in cfg.nodes:
+                if n.kind == "stmt" and n.ast is not None and any(y is n.ast for y in ast.walk(lp2)) and isinstance(n.ast, ast.Assign) and norm(n.ast.targets[0]) in flagvars \
+                        and isinstance(n.ast.value, ast.Constant) and n.ast.value.value is True:
+                    stale = True
+    sub_d = f"{sd.module.relpath}:_show_diffs file that only the existing tree has"
+    if stale:
+        rep.ok(rule, sub_d, "the existing tree is walked as well: a file that would not be generated now sets the flag", sd.loc())
+    else:
+        rep.violation(rule, sub_d, f"{sd.fq}|stale-files-ignored",
+                      "only the newly generated tree is walked: a stale module left in the existing package (a model or endpoint module of a schema / tag that no longer exists, still importable) "
+                      "is not a difference - the non-force run succeeds over an output that differs from what would be generated now", sd.loc())
+
+
+# ------------------------------------------------------------------------------------------------ R9.4 (shared with C10 / C12): no generated file is left out of the comparison
+def rule_show_diffs_compares_all(repo: Repo, rep, rule: str = "R9.4") -> None:
+    """Every file of the newly generated tree is compared: the loop of _show_diffs runs over the walk result itself - not over a list from which
+    generated files were filtered out (the exclusion of `__pycache__` is the one enumerated exception: byte-code caches are not generated) - and has no skip."""
+    sd, SL, p_old, p_new, nested, globs_in, tree_of = _show_diffs_model(repo)
+    cmp_loops = [lp for lp in own_nodes(sd.node) if isinstance(lp, ast.For) and "new" in tree_of(lp.iter) and "old" not in tree_of(lp.iter)]
+    if not cmp_loops:
+        raise AnalysisError(f"{rule}: the per-file comparison loop of _show_diffs was not found (anchor)")
+
+    def _harmless_filter(cond: ast.AST) -> bool:
+        return any(isinstance(c, ast.Constant) and c.value == "__pycache__" for c in ast.walk(cond)) and not any(isinstance(c, ast.Constant) and isinstance(c.value, str) and c.value != "__pycache__" for c in ast.walk(cond))
+
     skipped = None
     for lp in cmp_loops:
-        srcs = [lp.iter]
-        if isinstance(lp.iter, ast.Name):
-            srcs = [v for _, v, _ in SL.defs.get(lp.iter.id, []) if v is not None] or [lp.iter]
-        for v in srcs:
+        seen: Set[int] = set()
+        work = [lp.iter]
+        while work:
+            v = work.pop()
+            if id(v) in seen:
+                continue
+            seen.add(id(v))
             for x in ast.walk(v):
-                if isinstance(x, (ast.ListComp, ast.GeneratorExp, ast.SetComp)) and any(g.ifs for g in x.generators):
-                    skipped = skipped or (x, f"the compared files are a filtered list (`{norm(x)[:60]}`)")
+                if isinstance(x, (ast.ListComp, ast.GeneratorExp, ast.SetComp)):
+                    for g in x.generators:
+                        for cond in g.ifs:
+                            if not _harmless_filter(cond) and not (isinstance(cond, ast.Call) and isinstance(cond.func, ast.Attribute) and cond.func.attr in ("is_file",)):
+                                skipped = skipped or (x, f"the compared files are a filtered list (`{norm(x)[:60]}`)")
                 if isinstance(x, ast.Call) and isinstance(x.func, ast.Name) and x.func.id == "filter":
                     skipped = skipped or (x, f"the compared files are a filtered list (`{norm(x)[:60]}`)")
+                if isinstance(x, ast.Name) and x.id in SL.defs and x.id not in SL.params:
+                    work += [d for _, d, _ in SL.defs.get(x.id, []) if d is not None]
+                if isinstance(x, ast.Call) and isinstance(x.func, ast.Name) and x.func.id in nested:
+                    work += [r.value for r in ast.walk(nested[x.func.id]) if isinstance(r, ast.Return) and r.value is not None]
+                    work += [a.value for a in ast.walk(nested[x.func.id]) if isinstance(a, ast.Assign)]
+
         def _own_jump(b: ast.AST) -> bool:
-            """a continue / break of *this* loop (not of a loop nested in it, e.g. the one-shot loop an inlined helper's returns become)"""
             q = parent(b)
             while q is not None and not isinstance(q, (ast.For, ast.AsyncFor, ast.While)):
                 q = parent(q)
             return q is lp
 
         for x in ast.walk(lp):
-            if isinstance(x, ast.If) and any(isinstance(b, (ast.Continue, ast.Break)) and _own_jump(b) for b in x.body) and not any(_exists_call(y) for y in ast.walk(x.test)):
+            if isinstance(x, ast.If) and any(isinstance(b, (ast.Continue, ast.Break)) and _own_jump(b) for b in x.body) and not _harmless_filter(x.test):
                 skipped = skipped or (x, f"`{norm(x.test)[:60]}` skips files of the newly generated tree")
-    if cmp_loops:
-        if skipped:
-            rep.violation(rule, f"{sd.module.relpath}:_show_diffs compares every generated file", f"{sd.fq}|files-left-out",
-                          f"{skipped[1]}: a difference (or a missing / stale file) confined to the files that are left out goes unreported and the non-force run succeeds "
-                          "over an output that differs from what would be generated", sd.loc(skipped[0]))
-        else:
-            rep.ok(rule, f"{sd.module.relpath}:_show_diffs compares every generated file", "the comparison loop runs over the glob result itself and skips nothing", sd.loc(cmp_loops[0]))
-
+    if skipped:
+        rep.violation(rule, f"{sd.module.relpath}:_show_diffs compares every generated file", f"{sd.fq}|files-left-out",
+                      f"{skipped[1]}: a difference (or a missing / stale file) confined to the files that are left out goes unreported and the non-force run succeeds "
+                      "over an output that differs from what would be generated", sd.loc(skipped[0]))
     else:
-        raise AnalysisError(f"{rule}: the per-file comparison loop of _show_diffs was not found (anchor)")
+        rep.ok(rule, f"{sd.module.relpath}:_show_diffs compares every generated file", "the comparison loop runs over the walk result itself and skips nothing (byte-code caches aside)", sd.loc(cmp_loops[0]))
